@@ -64,13 +64,6 @@ Fixpoint go (c : config) (progs : list (list Z)) (sched : list Z) (acc : list Z)
       end
   end.
 
-Definition pre_val (j : nat) : Z := 9001 + Z.of_nat j.
-(* the sequential state after npre pushes: nodes 1..npre hold the values, tail = npre *)
-Definition seq_state (npre n : nat) : config :=
-  let vs := map pre_val (seq 0 npre) in
-  {| sh := {| vals := None :: map Some vs; head := 0; tail := npre; len := Z.of_nat npre; q := vs; lin := map LPush vs |};
-     ths := repeat Idle n; hist := [] |}.
-
 Definition enc_res (r : res) : list Z :=
   match r with
   | RPush => [1]
